@@ -22,7 +22,10 @@ from flowmark.linewrapping.line_wrappers import (
     line_wrap_to_width,
 )
 from flowmark.linewrapping.protocols import LineWrapper
-from flowmark.linewrapping.tag_handling import find_template_tags
+from flowmark.linewrapping.tag_handling import (
+    find_template_tags,
+    find_template_tags_outside_code,
+)
 from flowmark.linewrapping.text_filling import DEFAULT_WRAP_WIDTH
 
 
@@ -406,7 +409,7 @@ class TemplateTag(inline.InlineElement):
     @classmethod
     def find(cls, text: str, *, source: Source) -> Iterator[re.Match[str]]:
         # Not `pattern.finditer()`: see `find_template_tags()`.
-        for start, _end in find_template_tags(text):
+        for start, _end in find_template_tags_outside_code(text):
             match = cls.pattern.match(text, start)
             if match:  # Not an HTML comment, which is inline HTML for Marko already.
                 yield match
